@@ -1425,7 +1425,7 @@ class AlterDatabaseStatementSegment(BaseSegment):
         Sequence(
             "REMOVE",
             "FILE",
-            Ref("LiteralSegment"),
+            Ref("NakedOrQuotedIdentifierGrammar"),
         ),
         Sequence(
             "MODIFY",
